@@ -90,6 +90,52 @@ def ops_cases(ctx):
                'kind=%s ops=%r' % metas[i])
 
 
+def updates_cases(ctx):
+  """(L1b) get_updates_for_removed_target_rows / _raw_get_without on REAL column objects (after an op sequence)
+  vs the model's get_updates; cells with repeated target ids, removal of the repeated id alone and with others."""
+  k4 = K()
+  r = ctx.rng
+  fx = k4.Fixture()
+  cases, metas = [], []
+  for i in range(ctx.n(300, 5000)):
+    kind = r.choice(['KRef', 'KRefList', 'KRefList'])
+    ops = k4.gen_ops(r, kind, r.choice([2, 3, 4, 6, 8]), with_clear=(i % 5 == 0))
+    targets = r.sample([0, 1, 2, 3, 4, 5, -1, 7], r.choice([1, 1, 2, 3]))
+    try:
+      status, col = k4.run_real_ops(fx, kind, ops)
+      if status != 'ok':
+        continue
+      try:
+        ups = col.get_updates_for_removed_target_rows(set(targets))
+        expected = '(Ok %s)' % core.coq_list(['(%s, %s)' % (k4.natlit(row), k4.enc_cell(v)) for row, v in ups])
+      except Exception as ex:      # pylint: disable=broad-except
+        name = k4.enc_err(ex)
+        if name is None:
+          raise
+        ups, expected = None, '(Err %s)' % name
+      strs = [o[2] for o in ops if o[0] == 'set' and isinstance(o[2], str)]
+      term = '(%s, %s, %s, %s, (%s : res (list (nat * cell))))' % (
+        kind, k4.hack_table(strs, fx.col('KRefList')), core.coq_list([k4.enc_op(o) for o in ops]),
+        core.zlist(targets), expected)
+    except k4.Unrepresentable:
+      ctx.bump('updates:unrepresentable')
+      continue
+    cases.append(term)
+    metas.append((kind, ops, targets))
+    repeated = any(isinstance(v, list) and len(set(v)) != len(v) and set(v) & set(targets)
+                   for v in col._data)
+    ctx.count(('updates', kind, repr(ops), repr(targets)), nontrivial=bool(ups),
+              kind='updates:%s:%s' % (kind, 'repeated-id-removed' if repeated else ('hit' if ups else 'nohit')))
+  check = ('fun c => match c with (k, tbl, ops, targets, expected) => '
+           'res_eqb (list_eqb (fun x y => Nat.eqb (fst x) (fst y) && cell_eqb (snd x) (snd y))) '
+           '(bind (run_from (hack_of tbl) %s (col_new k) ops) (fun col => get_updates col targets)) expected end'
+           % CLEAR_FIXED)
+  bad = ctx.run_cases('updates', IMPORTS, check, cases, shard=100)
+  for i in bad[:5]:
+    ctx.broken('correspondence:RefIndex.get_updates differs from get_updates_for_removed_target_rows of the real column',
+               'kind=%s ops=%r targets=%r' % metas[i])
+
+
 # ---------------------------------------------------------------------------------------------
 # histories: (L2) call traces, (L3) removal worlds, (S) oracles
 
@@ -342,6 +388,7 @@ def passes(ctx):
 
 def correspond(ctx):
   ops_cases(ctx)
+  updates_cases(ctx)
   ps = passes(ctx)
   traces = ps['main']['traces'] + ps['replace']['traces']
   for term, what, nontrivial, n in traces:
